@@ -178,22 +178,18 @@ impl<SystemType : System> SysCache<SystemType>
             {
                 match system.rename(&cache_path, &target_path)
                 {
-                    Err(error) =>
-                    {
-                        /*  Another rule's thread can take the same cache file between the
-                            check above and the rename (two targets with identical content
-                            share one cache entry).  That is the same as the file not being
-                            in the cache: the caller falls back to rebuilding. */
-                        if system.is_file(&cache_path)
-                        {
-                            RestoreResult::SystemError(error)
-                        }
-                        else
-                        {
-                            RestoreResult::NotThere
-                        }
-                    },
-                    Ok(()) => RestoreResult::Done
+                    Ok(()) => RestoreResult::Done,
+
+                    /*  Another rule's thread can take the same cache file between the check
+                        above and the rename (two targets with identical content share one
+                        cache entry).  The rename then finds nothing to move, which is the
+                        same as the file not being in the cache: the caller falls back to
+                        rebuilding.  Looking at the cache again to tell would not do: a third
+                        rule may have put the same content back in the meantime. */
+                    Err(SystemError::NotFound) |
+                    Err(SystemError::RenameFromNonExistent) => RestoreResult::NotThere,
+
+                    Err(error) => RestoreResult::SystemError(error),
                 }
             }
             else
